@@ -370,3 +370,95 @@ def dependency_slice(w2j, loop, anchors, is_known):
         lst, idx = chain[-1]
         lo = hi = idx
     raise AnalysisError("slice", "dependency slice did not converge")
+
+
+# --------------------------------------------------------------------------- type branches (evaluated as blocks)
+def type_branch_stmt(ctx, w2j, loop, qtype):
+    """The top-level `if question_type == <qtype>` / `in {...}` statement of the loop body that handles `qtype`."""
+    from .astutil import const_str
+    for st in loop.body:
+        if not isinstance(st, ast.If):
+            continue
+        t = st.test
+        if isinstance(t, ast.Compare) and len(t.ops) == 1 and isinstance(t.left, ast.Name) and t.left.id == "question_type":
+            ok, v = const_str(ctx, w2j.module, t.comparators[0])
+            if ok and ((isinstance(t.ops[0], ast.Eq) and v == qtype) or (isinstance(t.ops[0], ast.In) and isinstance(v, set | frozenset | tuple | list) and qtype in v)):
+                return st
+    return None
+
+
+def eval_type_branch(ctx, rid, w2j, loop, qtype, row, parameters, row_number=7):
+    """-> (outcome, appended rows, warnings): outcome 'appended' (the branch ends the iteration), 'fallthrough', or ('error', Raised)."""
+    from .interp import Raised, _Continue
+    st = type_branch_stmt(ctx, w2j, loop, qtype)
+    if st is None:
+        raise AnalysisError(rid, f"no branch of the row loop handles question type {qtype!r}")
+    kids, warnings = [], []
+    targets = {n.id for n in ast.walk(loop.target) if isinstance(n, ast.Name)}
+    rn_name = next((n for n in targets if "number" in n or n in ("i", "idx")), None)
+    row_name = next((n for n in targets if n != rn_name), None)
+    env = {row_name: row, rn_name: row_number, "question_type": qtype, "parameters": parameters, "warnings": warnings, "parent_children_array": kids,
+           "question_name": row.get("name")}
+    it = ctx.interp(rid)
+    it.reset([])
+    try:
+        it.exec_block([st], env, w2j.module)
+        return "fallthrough", kids, warnings
+    except _Continue:
+        return "appended", kids, warnings
+    except Raised as e:
+        return ("error", e), kids, warnings
+
+
+def type_branch_obligations(ctx, rule, rid):
+    """The parameter-handling branches of the row loop (photo, audio, background-audio, geopoint family), evaluated as
+    blocks over parameter subsets x what the row already carries: each parameter lands in its documented attribute,
+    what the row already has in bind / control is kept, invalid values are rejected, and the max-pixels advisory is
+    given exactly when an image row has no max-pixels."""
+    import itertools
+    w2j = ctx.func("pyxform.xls2json:workbook_to_json", rid)
+    loop = row_loop_of(w2j)
+    carried = [("nothing else", {}, {}), ("own bind and control", {"required": "yes", "relevant": "${a} = 1"}, {"appearance": "annotate"})]
+
+    def check(qtype, params, want_bind, want_control, want_warn, want_action=None, reject=False):
+        for cdesc, cbind, cctrl in carried:
+            row = {"type": qtype, "name": "q", "label": "L"}
+            if cbind:
+                row["bind"] = dict(cbind)
+            if cctrl:
+                row["control"] = dict(cctrl)
+            out, kids, ws = eval_type_branch(ctx, rid, w2j, loop, qtype, row, dict(params))
+            desc = f"{qtype} parameters={sorted(params.items())} row with {cdesc}"
+            if reject:
+                ok = isinstance(out, tuple) and "PyXFormError" in out[1].mro
+                rule.check(ok, f"type branch[{desc}]", "rejected with PyXFormError", w2j.loc(loop), why_fail=f"outcome {out if isinstance(out, str) else out[1].exc_name}")
+                continue
+            got = kids[0] if out == "appended" and len(kids) == 1 and isinstance(kids[0], dict) else None
+            exp_bind = {**cbind, **want_bind}
+            exp_ctrl = {**cctrl, **want_control}
+            ok = got is not None and (got.get("bind") or {}) == exp_bind and (got.get("control") or {}) == exp_ctrl and (got.get("action") or {}) == (want_action or {}) \
+                and len(ws) == want_warn and all("[row : 7]" in str(w_) for w_ in ws) and got.get("name") == "q" and got.get("label") == "L"
+            rule.check(ok, f"type branch[{desc}]", f"one row appended with bind {exp_bind}, control {exp_ctrl}" + (f", action {want_action}" if want_action else "") + f"; {want_warn} advisory",
+                       w2j.loc(loop), why_fail=f"outcome {out if isinstance(out, str) else out[1].exc_name}; appended {kids!r}; warnings {len(ws)}")
+
+    for mp, app in itertools.product((None, "640"), (None, "com.example.camera")):
+        params = {k: v for k, v in (("max-pixels", mp), ("app", app)) if v is not None}
+        check("photo", params, ({"orx:max-pixels": mp} if mp else {}), ({"intent": app} if app else {}), 0 if mp else 1)
+    check("photo", {"max-pixels": "large"}, {}, {}, 0, reject=True)
+    check("photo", {"quality": "low"}, {}, {}, 0, reject=True)
+    for q in ("voice-only", "low", "normal", "external"):
+        check("audio", {"quality": q}, {"odk:quality": q}, {}, 0)
+    check("audio", {}, {}, {}, 0)
+    check("audio", {"quality": "best"}, {}, {}, 0, reject=True)
+    for q in ("voice-only", "low", "normal"):
+        check("background-audio", {"quality": q}, {}, {}, 0, want_action={"odk:quality": q})
+    check("background-audio", {"quality": "external"}, {}, {}, 0, reject=True)
+    for ca, wa, mock in itertools.product((None, "5"), (None, "10.5"), (None, "true", "false")):
+        params = {k: v for k, v in (("capture-accuracy", ca), ("warning-accuracy", wa), ("allow-mock-accuracy", mock)) if v is not None}
+        ctrl = {k: v for k, v in (("accuracyThreshold", ca), ("unacceptableAccuracyThreshold", wa)) if v is not None}
+        check("geopoint", params, ({"odk:allow-mock-accuracy": mock} if mock else {}), ctrl, 0)
+    check("geopoint", {"capture-accuracy": "near"}, {}, {}, 0, reject=True)
+    check("geopoint", {"allow-mock-accuracy": "yes"}, {}, {}, 0, reject=True)
+    for gt in ("geoshape", "geotrace"):
+        check(gt, {"allow-mock-accuracy": "true"}, {"odk:allow-mock-accuracy": "true"}, {}, 0)
+        check(gt, {"capture-accuracy": "5"}, {}, {}, 0, reject=True)
